@@ -48,7 +48,7 @@ func c08Install(w *World, cap *c08Capture, rule string) {
 		if f, seen := cap.first[r.Slot]; seen {
 			if string(f) != string(d.Data) {
 				r0, _ := DecodeReport(f)
-				w.Fail(rule+".identity", "datagram", "two different datagrams were emitted for timeslot %d: power %d then %d (same signature: %v)", r.Slot, r0.Power, r.Power, r0.Sig == r.Sig)
+				w.FailLater(rule+".identity", "datagram", "two different datagrams were emitted for timeslot %d: power %d then %d (same signature: %v)", r.Slot, r0.Power, r.Power, r0.Sig == r.Sig)
 			}
 			return
 		}
